@@ -19,10 +19,10 @@ def run(prop, tier, seed, t0):
 def finish(prop, tier, seed, res, t0, R):
     cov = {
         'evaluations': res.stat('cases'), 'distinct_nontrivial': res.ncells('nontrivial') + res.ncells('script'),
-        'rule': 'every frame emitted by streaming histories (ST and MT, dictionaries/prefixes, small windows with inputs longer than the window, long-range repetition) is decoded by the independent decoder R, which enforces the window/offset rule itself and whose events feed the rule monitor: content size, checksum (own XXH64), dictID, reserved bit, block size vs min(128KiB, window, maxBlockSize), compressed block smaller than content, no 128KiB payload, first block RLE not followed by blocks, sequence section >= 4 bytes. '
+        'rule': 'every frame emitted by streaming histories (ST and MT, dictionaries/prefixes, small windows with inputs longer than the window, long-range repetition) (1 case in 4 through stable-buffer modes, the buffer-less API incl. ZSTD_compressBegin_advanced / copyCCtx / scattered segments, or ZBUFF) is decoded by the independent decoder R, which enforces the window/offset rule itself and whose events feed the rule monitor: content size, checksum (own XXH64), dictID, reserved bit, block size vs min(128KiB, window, maxBlockSize), compressed block smaller than content, no 128KiB payload, first block RLE not followed by blocks, sequence section >= 4 bytes. '
                 'distinct non-trivial = distinct applied-parameter cells (ZSTD_trace) + script classes with >= 1 block',
         'frames_conformance_checked': res.stat('frames_conformance_checked'), 'compressed_blocks': res.stat('rule_compressed_blocks'), 'rle_blocks': res.stat('rule_rle_blocks'), 'frames_with_checksum': res.stat('rule_checksum_applicable'),
         'fse_table_blocks': res.stat('rule_fse_tables_applicable'), 'frames_with_offset_within_1pct_of_window': res.stat('frames_with_offset_near_window_bound'), 'frames_reaching_into_dict': res.stat('frames_reaching_into_dict'),
-        'applied_cells': res.ncells('applied'), 'applied_windowlogs': sorted(int(k) for k in res.cells.get('applied_wlog', {})),
+        'alt_entry_cells': res.cells.get('alt_entry', {}), 'applied_cells': res.ncells('applied'), 'applied_windowlogs': sorted(int(k) for k in res.cells.get('applied_wlog', {})),
     }
     return core.finish(prop, tier, seed, 'exploration', res, cov, ['R + own XXH64 are the specification oracle', 'one-shot entry points are covered by C01 (R round trip) and C17 (sequence API); this check drives the streaming / MT entry points', 'sampling'], t0, R)
